@@ -4,6 +4,7 @@
 package bundle
 
 import (
+	"runtime"
 	"strings"
 	"bytes"
 	"fmt"
@@ -660,9 +661,29 @@ func toCoreFields(fs []refbundle.Field) []core.Field {
 }
 
 // judgeRead is the C05 oracle for one blob.
+// checkReadTotal is CheckTotal for bundle.Read with one refinement of the memory
+// clause. GuardAlloc reports CUMULATIVE allocation, which also counts garbage made
+// and dropped along the way (the reader re-parses a variants-value per index
+// location, for instance): when that figure exceeds the budget, the read is
+// repeated under MeasurePeak and judged by the peak live memory it needs.
+func checkReadTotal(c *core.Ctx, blob []byte, pi *core.PanicInfo, alloc uint64) {
+	if pi == nil && alloc > core.AllocBudget(len(blob)) && (c.Prop == "C10" || c.Prop == "C00") {
+		var keep *bundle.Bundle
+		peak := core.MeasurePeak(func() { keep, _ = bundle.Read(bytes.NewReader(blob)) })
+		runtime.KeepAlive(keep)
+		c.Event("cumulative allocation %d bytes on a %d-byte input: peak re-measured", alloc, len(blob))
+		if peak > core.AllocBudget(len(blob)) {
+			c.Violation("alloc", "bundle.Read", "bundle.Read needs %d bytes of live memory at its peak (%d allocated in all) on a %d-byte input (budget %d)", peak, alloc, len(blob), core.AllocBudget(len(blob)))
+		}
+		c.Probe("cumulative allocation above the budget, peak within it")
+		alloc = 0
+	}
+	c.CheckTotal("bundle.Read", len(blob), pi, alloc)
+}
+
 func judgeRead(c *core.Ctx, blob []byte, rb *bundle.Bundle, err error, pi *core.PanicInfo, alloc uint64, site string) {
 	if c.Oracle("C10", "C05") {
-		c.CheckTotal("bundle.Read", len(blob), pi, alloc)
+		checkReadTotal(c, blob, pi, alloc)
 	}
 	if pi != nil || !c.Oracle("C05") {
 		return
@@ -961,7 +982,7 @@ func TestReencode(t *testing.T) {
 				}
 				ents := append([]refbundle.IndexEntry(nil), p.Index...)
 				a := c.Pick("reencode.a", len(ents))
-				k := c.PickInt("reencode.axes", 1, 2, 13, 14, 31, 32, 33, 62, 63, 64, 65, 128)
+				k := c.PickInt("reencode.axes", 1, 2, 10, 12, 13, 13, 14, 31, 32, 33, 62, 63, 64, 65, 128)
 				var axes []string
 				for i := 0; i < k; i++ {
 					nv := 2
@@ -993,7 +1014,11 @@ func TestReencode(t *testing.T) {
 					c.Fault("reencode-variants-grammar")
 				}
 				locs := ents[a].Locs
-				switch c.Pick("reencode.axesLocs", 4) {
+				axesLocs := c.Pick("reencode.axesLocs", 4)
+				if amplify {
+					axesLocs = 0 // a location for every possible key
+				}
+				switch axesLocs {
 				case 0:
 					locs = nil
 					if amplify {
@@ -1371,12 +1396,9 @@ func scaleVariants(c *core.Ctx) {
 		}
 		return
 	}
-	// (no allocation budget here: the reader flattens a multi-key representation into one
-	// exchange per key by design, so 100 representations come back as 10000 exchanges -
-	// an amplification the format itself allows and bounds)
-	rb, rerr, pi, _, _ := readBundle(c, buf.Bytes(), core.ReaderPlan{ErrAt: -1})
+	rb, rerr, pi, alloc, _ := readBundle(c, buf.Bytes(), core.ReaderPlan{ErrAt: -1})
 	if c.Oracle("C10", "C05", "C03") {
-		c.CheckTotal("bundle.Read", buf.Len(), pi, 0)
+		checkReadTotal(c, buf.Bytes(), pi, alloc)
 	}
 	if pi != nil {
 		return
